@@ -45,6 +45,67 @@ def corrupt(rng, data, region):
     return kind, bytes(b)
 
 
+def packet_damage(rng, stream):
+    """structure-aware damage: the 12-byte packet headers stay consistent, the PAYLOADS of whole packets are cut, grown or garbled -
+    so the damage reaches the per-packet decoders (bit reader, type codecs) instead of de-synchronising the framing at once"""
+    frames = []; off = 0
+    while off + 12 <= len(stream):
+        size, ptype, tb = struct.unpack_from('<III', stream, off)
+        if off + 12 + size > len(stream): break
+        frames.append([ptype, tb, stream[off + 12:off + 12 + size]]); off += 12 + size
+    if not frames: return 'packet-none', stream
+    types = sorted(set(f[0] for f in frames))
+    def cut_inner(pl):
+        """shorten the variable part of a payload and FIX UP the length field inside the payload that covers it (the signed size byte of a
+        nested-property packet, a 32-bit length prefix of an embedded byte stream), so that the damage gets past the packet class's own
+        size checks and reaches the bit reader / type codecs with too few bytes"""
+        if len(pl) >= 9 and pl[4] in (0, 1) and pl[5] == (len(pl) - 9) & 0xff and len(pl) > 9:
+            k = rng.randrange(0, min(len(pl) - 9, 4)); return pl[:5] + bytes([k]) + pl[6:9] + pl[9:9 + k]
+        for o in range(0, min(len(pl) - 4, 64) + 1, 2):
+            if len(pl) - o - 4 > 0 and struct.unpack_from('<I', pl, o)[0] == len(pl) - o - 4:
+                k = rng.randrange(0, len(pl) - o - 4); return pl[:o] + struct.pack('<I', k) + pl[o + 4:o + 4 + k]
+        return pl
+    mode = rng.choice(['cut-type', 'cut-some', 'grow-some', 'garble-type', 'cut-type-fixed', 'cut-inner-type', 'cut-inner-type', 'cut-inner-some', 'cut-inner-all', 'cut-sized-all', 'cut-sized-all'])
+    sized = lambda pl: len(pl) > 9 and pl[4] in (0, 1) and pl[5] == (len(pl) - 9) & 0xff
+    t = rng.choice(types)
+    # prefer the types with variable-length bit/typed payloads
+    weighted = [x for x in types if x in (0x22, 0x23, 0x24, 0x7, 0x8, 0x5)] or types
+    if rng.random() < 0.7: t = rng.choice(weighted)
+    k_fixed = rng.choice([0, 1, 4, 8, 9, 10, 11, 12, 13])
+    for f in frames:
+        pl = f[2]
+        if mode == 'cut-type' and f[0] == t and pl: f[2] = pl[:rng.randrange(0, len(pl))]
+        elif mode == 'cut-type-fixed' and f[0] == t: f[2] = pl[:k_fixed]
+        elif mode == 'cut-inner-type' and f[0] == t: f[2] = cut_inner(pl)
+        elif mode == 'cut-inner-some' and rng.random() < 0.05: f[2] = cut_inner(pl)
+        elif mode == 'cut-inner-all' and rng.random() < 0.3: f[2] = cut_inner(pl)
+        elif mode == 'cut-sized-all' and sized(pl): f[2] = cut_inner(pl)
+        elif mode == 'cut-some' and rng.random() < 0.02 and pl: f[2] = pl[:rng.randrange(0, len(pl))]
+        elif mode == 'grow-some' and rng.random() < 0.02: f[2] = pl + bytes(rng.randrange(256) for _ in range(rng.choice([1, 3, 200])))
+        elif mode == 'garble-type' and f[0] == t and len(pl) > 8:
+            h = rng.randrange(8, len(pl)); f[2] = pl[:h] + bytes(rng.randrange(256) for _ in range(len(pl) - h))
+    return 'packet-%s' % mode, b''.join(struct.pack('<III', len(pl), pt, tb) + pl for pt, tb, pl in frames) + stream[off:]
+
+
+def fast_source(path):
+    """(engine block bytes, decoded packet stream) of an undamaged file - only a SOURCE of inputs to damage, obtained with the library's reader
+    (the extracted model reads 30 kB/s; C01 is where reader and model are compared)"""
+    from replay_unpack.replay_reader import ReplayReader
+    r = ReplayReader(path).get_replay_data()
+    return json.dumps(r.engine_data).encode(), r.decrypted_data
+
+
+def fast_write(path, ext, b0, stream, level=6):
+    """the container writer of the model (write_container / chain_enc) transcribed to Python with Cryptodome's Blowfish, for volume"""
+    from Cryptodome.Cipher import Blowfish
+    from replay_unpack.replay_reader import TYPE_TO_KEY
+    co = zlib.compressobj(level); z = co.compress(stream) + co.flush(); z += bytes((-len(z)) % 8)
+    E = Blowfish.new(TYPE_TO_KEY[ext], Blowfish.MODE_ECB); prev = 0; out = []
+    for i in range(0, len(z), 8):
+        v = int.from_bytes(z[i:i + 8], 'little'); out.append(E.encrypt((v ^ prev).to_bytes(8, 'little'))); prev = v
+    open(path, 'wb').write(b'\x12\x32\x34\x11' + struct.pack('<i', 1) + struct.pack('<i', len(b0)) + b0 + struct.pack('<II', len(stream), len(z)) + b''.join(out))
+
+
 def header_end(data):
     n = struct.unpack_from('<i', data, 4)[0]; off = 8
     for _ in range(n): off += 4 + struct.unpack_from('<i', data, off)[0]
@@ -66,7 +127,7 @@ def run_worker(path, limit_s):
 
 def run(ctx):
     ctx.rule = ('fault injection: single and multiple corruptions (bit flips, truncation, deleted/inserted ranges, tampered 32-bit length fields, zero/0xFF runs) '
-                'placed separately in header/blocks, ciphertext and the DECODED packet stream (re-wrapped by the model writer) of real recordings and synthetic '
+                'placed separately in header/blocks, ciphertext, the DECODED packet stream, and the payloads of whole packets with consistent framing (cut / grown / garbled per packet type) (re-wrapped by the model writer) of real recordings and synthetic '
                 'battles; each damaged file parsed leniently in a fresh interpreter under a wall-clock limit proportional to the undamaged parse; outcome must be '
                 'a result or an ordinary exception, container-intact cases must return a result object; non-trivial = every damaged file; distinct by bytes')
     ctx.extra['explanation'] = ('Level "other": proved (Coq, closed) that every loop of the model is bounded by the bytes present (frames, blocks, element loop, bit path; a '
@@ -83,24 +144,26 @@ def run(ctx):
         srcs = srcs[: (3 if q else 12)]
         syn = os.path.join(tmp, 'syn.wowsreplay'); battle.write_wows(syn, '13_2_0', random.Random(1)); srcs.append(syn)
         syn2 = os.path.join(tmp, 'syn.wotreplay'); battle.write_simple(syn2, 'wot', '1_10_0', random.Random(1)); srcs.append(syn2)
-        n_per = 18 if q else 400
+        n_per = 24 if q else 400
         worst = dict(wall=0, rss=0)
         for src in srcs:
             data = open(src, 'rb').read(); ext = src.rsplit('.', 1)[-1]
             base = run_worker(src, 120)
             limit = max(20.0, base['wall'] * 10 + 10); rss_limit = max(base['maxrss_kb'] * 4, 600000)
             he = header_end(data)
-            raw = c01.model_read(src) if len(data) < 300000 else None
+            try: raw = fast_source(src)
+            except Exception: raw = None
             for i in range(n_per):
-                where = ('header', 'cipher', 'stream')[i % 3]
-                if where == 'stream' and raw is None: where = 'cipher'
+                where = ('header', 'cipher', 'stream', 'packet')[i % 4]
+                if where in ('stream', 'packet') and raw is None: where = 'cipher'
                 if where == 'header': kind, dmg = corrupt(rng, data, (0, he + 8))
                 elif where == 'cipher': kind, dmg = corrupt(rng, data, (he + 8, len(data)))
                 else:
-                    stream = zlib.decompress(raw['payload'])
-                    kind, ds = corrupt(rng, stream, (0, len(stream)))
+                    stream = raw[1]
+                    if where == 'packet': kind, ds = packet_damage(rng, stream)
+                    else: kind, ds = corrupt(rng, stream, (0, len(stream)))
                     if rng.random() < 0.3: kind2, ds = corrupt(rng, ds, (0, max(1, len(ds)))); kind += '+' + kind2
-                    p = os.path.join(tmp, 'd.' + ext); battle.write_replay(p, ext, json.loads(raw['b0']), ds); dmg = open(p, 'rb').read()
+                    p = os.path.join(tmp, 'd.' + ext); fast_write(p, ext, raw[0], ds); dmg = open(p, 'rb').read()
                 p = os.path.join(tmp, 'damaged-%d.%s' % (i, ext)); open(p, 'wb').write(dmg)
                 r = run_worker(p, limit)
                 ctx.case(dmg); ctx.count('where:' + where); ctx.count('kind:' + kind.split('+')[0]); ctx.count('outcome:' + r['outcome'].split(' ')[0] + ':' + r['outcome'].split(' ')[1][:24])
@@ -109,7 +172,7 @@ def run(ctx):
                 if r['outcome'].startswith(('HANG', 'CRASH')): bad = r['outcome']
                 elif r['outcome'] in ('exception MemoryError', 'exception RecursionError'): bad = r['outcome'] + ' (not an ordinary outcome for a damaged file)'
                 elif r['maxrss_kb'] > rss_limit: bad = 'peak resident size %d kB (undamaged: %d kB)' % (r['maxrss_kb'], base['maxrss_kb'])
-                elif where == 'stream' and not r['outcome'].startswith('result'): bad = 'container intact but lenient mode raised: ' + r['outcome']
+                elif where in ('stream', 'packet') and not r['outcome'].startswith('result'): bad = 'container intact but lenient mode raised: ' + r['outcome']
                 if bad:
                     keep = os.path.join(common.VERIF, 'evidence', 'replays', 'C15-damaged-%d.%s' % (len(ctx.violations) + 1, ext)); shutil.copy(p, keep)
                     ctx.violation(dict(kind='damaged-input', source=os.path.basename(src), where=where, corruption=kind, problem=bad, file=keep, wall_s=r['wall'], limit_s=limit,
